@@ -47,6 +47,8 @@ def step (st : St) (line : String) : St × String :=
       let st := see st d
       ({ st with s := fund st.s d a }, "ok")
     | _, _ => (st, "bad-op")
+  | ["restart"] => (st, "ok")     -- export / import of the module: the identity on the model state (Vesting.restart)
+  | ["blockdry"] => (st, "ok")    -- a discarded BeginBlock: the identity (Vesting.discarded)
   | ["block"] =>
     match beginBlock st.s with
     | .ok s' => ({ st with s := s' }, "ok P:" ++ dump st.seen s'.pool ++ " F:" ++ dump st.seen s'.fee)
